@@ -54,7 +54,11 @@ func checkC13(c *Ctx, n int) {
 			// sections that are dotted command paths; options that already hold something
 			g.p.MaxCmdDepth, g.p.SubOpt, g.p.InitVals = 2, 1, 0.4
 		}
+		// (default tags that do not convert would fail every command line for a reason of their own)
+		valueBad := g.p.ValueBad
+		g.p.ValueBad = 0
 		cs := g.genCase()
+		g.p.ValueBad = valueBad
 		collided := false
 		if g.chance(0.4) {
 			collided = g.collidePriority(cs.Build[0].Struct)
@@ -249,6 +253,11 @@ func checkC13(c *Ctx, n int) {
 			}
 		}
 		if secName != "" {
+			if c.Rng.Intn(4) == 0 {
+				// the section is opened once before, with nothing in it but a comment (a template file)
+				ini.WriteString("[" + secName + "]\n; " + name + " = (unset)\n\n")
+				c.Class("c13/section-opened-empty-before")
+			}
 			ini.WriteString("[" + secName + "]\n")
 		}
 		argv := append([]string{}, s.path...)
@@ -456,7 +465,10 @@ func checkC05(c *Ctx, n int) {
 				key := fmt.Sprintf("VFP%d", j)
 				tags = append(tags, quoteTag("env", key))
 				delim := ""
-				if multi {
+				// (env-delim splits the variable for every option type: a single-valued option is
+				// assigned the elements in turn, so it ends with the last one)
+				scalarDelim := !multi && r.Intn(3) == 0
+				if multi || scalarDelim {
 					delim = []string{",", "::"}[r.Intn(2)]
 					tags = append(tags, quoteTag("env-delim", delim))
 				}
@@ -464,6 +476,9 @@ func checkC05(c *Ctx, n int) {
 					po.envSet = true
 					for x := 0; x < count(); x++ {
 						po.env = append(po.env, val("env", x))
+					}
+					if scalarDelim {
+						po.env = append(po.env, val("env", 1))
 					}
 					if code == "Lstr" && r.Intn(3) == 0 {
 						// an empty element is an element (a,,b / a,b, / ,a / the variable set but empty)
